@@ -54,7 +54,7 @@ class C02(Check):
         "cases: (a) every word of length 1..3 (quick) / 1..4 (thorough) over the 12 element kinds {call, notification} x {succeeds, "
         "unknown method, params do not bind, raises protocol error, raises exception, not a valid request object} x 2 dispatchers x an id "
         "typing (integers from 1, from 0, numeric strings, negatives, the mix '', '1', 1, 0, growing strings), enumerated; (b) Hypothesis-"
-        "generated singles and batches of 0..6 elements over the 12-method registry with duplicate ids injected at chosen position pairs "
+        "generated singles and batches of 0..6 elements over the 14-method registry with duplicate ids injected at chosen position pairs "
         "(1/1, '1'/'1', 1/'1' which is not a duplicate, 0/0, ''/''), max_batch_size around the length, generated behaviours. Oracles: "
         "reference server (document equality, ids type-exact), metamorphic (accepted batch == concatenation of each element dispatched "
         "alone on a fresh dispatcher; nothing if none answers), execution log == the reference's executions (ordered for the sync "
@@ -134,6 +134,8 @@ class C02(Check):
             els = [word_element(i, *ELEMENT_KINDS[k], typing(i)) for i, k in enumerate(spec['word'])]
             doc = els[0] if len(els) == 1 and spec['typing'] % 2 == 0 else els
             spec = {**spec, 'text': {'doc': doc, 'ascii': True, 'indent': 0, 'pad': '', 'huge': None, 'mangle': None}}
+        if spec['dispatcher'] == 'async':
+            spec = {**spec, 'yield_once': True}   # coroutine methods really suspend once (execution log compared as a multiset)
         obs = sh.observe(spec)
         registry, behaviours = sh.registry_of(spec), sh.behaviours_of(spec)
         exp = ref.expect(obs.request_text, registry, behaviours, spec.get('max_batch_size'))
@@ -201,7 +203,7 @@ MANIFEST = dict(
         "Every batch shape over the 12 element kinds up to length 3 (quick) / 4 (thorough) is enumerated for both dispatchers, and "
         "generated batches with duplicate ids, mixed id typings and max_batch_size around the length are sampled. Three oracles: an "
         "independent reference server, the batch == singles metamorphic relation, and the log of instrumented methods. Bounded "
-        "exploration (batches <= 6, 12 methods); no claim beyond the explored space."
+        "exploration (batches <= 6, 14 methods); no claim beyond the explored space."
     ),
     level_note="trusts pbt/refserver.py (does not import pjrpc), python's json and call binding; library error wording is not compared",
 )
